@@ -526,6 +526,13 @@ public:
       return matrixIsSetup;
    }
 
+   /// makes sure that the ids and vectors of the basic variables are set up: after a change of the LP they are rebuilt from the descriptor
+   void setupMatrix() const
+   {
+      if(!matrixIsSetup)
+         (const_cast<SPxBasisBase<R>*>(this))->loadDesc(thedesc);
+   }
+
    /// returns the \p i'th basic vector.
    const SVectorBase<R>& baseVec(int i) const
    {
